@@ -43,8 +43,16 @@ type Rep struct {
 	HasState bool
 	Boot     *pb.Bootstrap
 	Removed  bool
-	Term     uint64 // highest term handed out by the generator
-	Written  int    // entries written so far (budget)
+	// GoneLast is the highest index any removed life of the replica ever held
+	// (RemoveNodeData must leave nothing of it behind); Lives counts the lives
+	// started after a RemoveNodeData.
+	GoneLast uint64
+	Lives    int
+	// RemovedGen is the store generation (reopen count) in which the node data
+	// was removed.
+	RemovedGen int
+	Term       uint64 // highest term handed out by the generator
+	Written    int    // entries written so far (budget)
 
 	SnapGen, StateGen int
 
@@ -237,6 +245,11 @@ func (o Op) String() string {
 
 // applyUpdate applies one Update of a SaveRaftState call to the replica model.
 func (m *Model) applyUpdate(r *Rep, u pb.Update, tr Traits) {
+	if r.Removed {
+		// a new life of a replica whose node data was removed
+		r.Removed = false
+		r.Lives++
+	}
 	if !pb.IsEmptyState(u.State) {
 		r.State = u.State
 		r.HasState = true
@@ -316,7 +329,9 @@ func (m *Model) Apply(o Op, tr Traits) {
 	case OpCompact, OpQuery:
 	case OpRemoveNode:
 		r := m.Reps[o.Rep]
-		*r = Rep{Shard: r.Shard, Replica: r.Replica, Removed: true, Term: r.Term, Written: r.Written, First: 1}
+		gone := maxU(r.GoneLast, maxU(r.Last, r.StaleLast))
+		*r = Rep{Shard: r.Shard, Replica: r.Replica, Removed: true, Term: r.Term, Written: r.Written, First: 1,
+			GoneLast: gone, Lives: r.Lives, RemovedGen: m.Gen}
 	case OpImport:
 		m.Gen++ // reopen before
 		r := m.Reps[o.Rep]
